@@ -296,6 +296,34 @@ class _UFunc:
         return keepdims_fix(self.dom._red(self.name, a, axis), a, axis, keepdims)
 
 
+class _ArithUFunc:
+    """np.add / np.subtract / np.multiply as objects: callable, with .reduce / .outer / .at / .accumulate"""
+
+    def __init__(self, dom, op, name):
+        self.dom, self.op, self.name = dom, op, name
+
+    def __call__(self, a, b, **k):
+        kw_strict(k, f"np.{self.name}")
+        return self.dom.binop(self.dom._interp, self.op, a, b, None)
+
+    def reduce(self, a, axis=0, keepdims=False, **k):
+        kw_strict(k, f"np.{self.name}.reduce")
+        if self.name == "add":
+            return self.dom.np_sum(a, axis=axis, keepdims=keepdims)
+        raise Unsupported(f"np.{self.name}.reduce")
+
+    def outer(self, a, b, **k):
+        kw_strict(k, f"np.{self.name}.outer")
+        a, b = wrap(a), wrap(b)
+        aa = np.asarray(a, dtype=object).reshape(a.shape + (1,) * b.ndim)
+        return SymArr(self.op(aa, np.asarray(b, dtype=object)), combine_kind(a, b))
+
+    def at(self, a, idx, v):
+        if self.name != "add":
+            raise Unsupported(f"np.{self.name}.at")
+        return self.dom.np_add_at(a, idx, v)
+
+
 class SymDomain(BaseDomain):
     """choice(n, why) is called for data dependent index choices (argmax)."""
 
@@ -325,6 +353,8 @@ class SymDomain(BaseDomain):
             return Namespace("scipy", sparse=self.sparse, linalg=self.scipy_linalg)
         if name == "scipy.linalg":
             return self.scipy_linalg
+        if name in ("itertools", "functools"):
+            return self.std_module(name)
         if name == "numpy.fft":
             return Namespace("numpy.fft")
         if name == "math":
@@ -334,6 +364,28 @@ class SymDomain(BaseDomain):
             return Namespace("time", time=lambda: Opaque("time"), perf_counter=lambda: Opaque("time"))
         if name in ("os", "sys", "typing", "os.path"):
             return Namespace(name, path=Namespace("os.path"), Tuple=None, List=None, Optional=None)
+        if name == "operator":      # functional spellings of the operators: same domain semantics as the syntax
+            cmp_ = lambda op: (lambda a, b: self.compare(self._interp, op, a, b, None))
+            bin_ = lambda op: (lambda a, b: self._interp.binop(op, a, b, None))
+            return Namespace("operator", **{n: cmp_(getattr(operator, n)) for n in ("lt", "le", "eq", "ne", "ge", "gt")},
+                             **{n: bin_(getattr(operator, n)) for n in ("add", "sub", "mul", "truediv", "floordiv", "mod", "matmul", "pow")},
+                             neg=lambda a: self.unop(self._interp, operator.neg, a, None),
+                             itemgetter=lambda *ks: (lambda v: self._interp.getitem(v, ks[0], None) if len(ks) == 1
+                                                     else tuple(self._interp.getitem(v, k, None) for k in ks)))
+        if name == "functools":
+            def reduce(f, it, *init):
+                items = self._it(it)
+                if init:
+                    acc = init[0]
+                elif items:
+                    acc, items = items[0], items[1:]
+                else:
+                    raise ModelError("reduce() of empty iterable with no initial value")
+                for x in items:
+                    acc = self._call(f, acc, x)
+                return acc
+            return Namespace("functools", reduce=reduce,
+                             partial=lambda f, *a, **k: (lambda *b, **kk: self._interp.call(f, list(a) + list(b), {**k, **kk})))
         raise Unsupported(f"unknown-external module {name!r}")
 
     def fresh(self, tag):
@@ -396,9 +448,9 @@ class SymDomain(BaseDomain):
             intp=TypeModel("intp", lambda v: isinstance(v, (int, np.integer)), lambda v=0: d.b_int(v)),
             uint8=DType("int"), uint16=DType("int"), int8=DType("int"), int16=DType("int"),
             bool_=TypeModel("bool_", lambda v: isinstance(v, (bool, np.bool_)), lambda v=False: d.b_bool(v)),
-            add=Namespace("np.add", at=d.np_add_at, reduce=lambda a, axis=0, keepdims=False: d.np_sum(a, axis=axis, keepdims=keepdims)),
-            square=lambda v: v * v, negative=lambda v: -v, multiply=lambda a, b: d.binop(d._interp, operator.mul, a, b, None),
-            subtract=lambda a, b: d.binop(d._interp, operator.sub, a, b, None),
+            add=_ArithUFunc(d, operator.add, "add"),
+            square=lambda v: v * v, negative=lambda v: -v, multiply=_ArithUFunc(d, operator.mul, "multiply"),
+            subtract=_ArithUFunc(d, operator.sub, "subtract"),
             divide=lambda a, b: d.binop(d._interp, operator.truediv, a, b, None),
             power=lambda a, b: d.binop(d._interp, operator.pow, a, b, None),
             einsum=d.np_einsum, tensordot=lambda a, b, axes=2: wrap(np.tensordot(np.asarray(wrap(a), dtype=object), np.asarray(wrap(b), dtype=object), axes=axes)),
@@ -1321,7 +1373,7 @@ class SymDomain(BaseDomain):
         return super().compare(interp, op, a, b, node)
 
     def getattr(self, interp, obj, attr, node=None):
-        if isinstance(obj, (Namespace, _UFunc)):
+        if isinstance(obj, (Namespace, _UFunc, _ArithUFunc)):
             return getattr(obj, attr)
         if isinstance(obj, SymArr):
             return self.arr_attr(obj, attr, node, interp)
